@@ -221,8 +221,9 @@ func vToChannel(rec *Recorder, r *rand.Rand, script []Tok, capacity int, mode, s
 		if !parked {
 			return "park=not-reached"
 		}
-		return fmt.Sprintf("read=%s closed=%d closes=%d trace=%s drops=%s unh=%s escaped=%s", rd.readString(), b2i(closed || !rd.wasStarted()),
-			closesOf(closed || !rd.wasStarted(), unh, esc.String()), trace, drops, unh, esc.String())
+		// closed / closes are what the reader observed (nothing when it never got a channel)
+		return fmt.Sprintf("read=%s closed=%d closes=%d trace=%s drops=%s unh=%s escaped=%s", rd.readString(), b2i(closed),
+			closesOf(closed, unh, esc.String()), trace, drops, unh, esc.String())
 	}
 	return fmt.Sprintf("read=%s closed=%d closes=%d trace=%s drops=%s unh=%s escaped=%s maxahead=%d produced=%d",
 		rd.readString(), b2i(closed), closesOf(closed, unh, esc.String()), trace, drops, unh, esc.String(), atomic.LoadInt64(&m.max), atomic.LoadInt64(&src.produced))
